@@ -25,8 +25,50 @@ fn junk(rng: &mut Rng) -> String {
     hex(&b)
 }
 
+/// datagrams travelling inside a connection (vmess, trojan): application B's first datagram opens a binding whose
+/// connection stalls in its handshake with the server; application A's established binding goes on being served
+fn binding_stall_cases(s: &mut Session, thorough: bool, rng: &mut Rng) {
+    for base in protocol_ciphers(rng) {
+        if base.protocol == "shadowsocks" || (!thorough && base.cipher == "chacha20-poly1305") {
+            continue;
+        }
+        let mut transports = vec![];
+        if base.protocol == "vmess" {
+            transports.push("ws");
+        }
+        if tls_available() {
+            transports.push("tls");
+            if thorough {
+                transports.push("wss");
+            }
+        }
+        for t in transports {
+            let mut base = base.clone();
+            base.udp = true;
+            let cfg = base.with(t);
+            s.begin_case(&format!("binding-stall:{}", cfg.label()));
+            let Some(w) = cfg.start(s, true, 4) else {
+                s.oracle_fail(&format!("start:{}", cfg.label()), "a README-supported configuration does not start");
+                continue;
+            };
+            let r = s.run(&format!("e2e.udphol {} hold={}", w, 5000));
+            s.count("fault:binding-handshake-stall");
+            if r != "served" && !r.starts_with("n/a") {
+                s.oracle_fail(&format!("binding-stall:{}", cfg.label()), &format!("while another binding's connection to the server was stalled in its handshake, an established binding's datagram was not served: `{}`", r));
+            }
+            let r = s.run(&format!("e2e.udp {} sizes=1,700 seed={}", w, rng.below(1 << 40)));
+            if r != "up=ok down=ok" {
+                s.oracle_fail(&format!("udp-canary:{}:binding-stall", cfg.label()), &format!("after a stalled binding a well-behaved udp flow failed: `{}`", r));
+            }
+            s.run(&format!("e2e.stop {}", w));
+            s.mark_nontrivial();
+        }
+    }
+}
+
 pub fn generate(s: &mut Session, tier: &str, rng: &mut Rng) {
     let thorough = tier == "thorough";
+    binding_stall_cases(s, thorough, rng);
     let mut transports = vec!["tcp", "ws"];
     if tls_available() {
         transports.extend(["tls", "wss", "quic"]);
